@@ -80,7 +80,7 @@ func checkClause(prog *Program, fi *FuncInfo, cl *Clause, pos token.Pos, ghostTy
 	if cl.Kind == "hint" {
 		resType = "any"
 	}
-	if cl.Kind == "yields" {
+	if cl.Kind == "yields" || cl.Kind == "yields2" {
 		resType = "any"
 	}
 	src := fmt.Sprintf("func(%s) %s { return %s }", strings.Join(params, ", "), resType, body)
@@ -154,7 +154,7 @@ func (fv *FuncVerifier) evalClause(st *State, cl *Clause, pos token.Pos, names m
 	}
 	env := &Env{info: cc.info, spec: true, old: fv.entry, entry: entry, binds: map[types.Object]Term{}}
 	// parameters refer to their entry values (maps: current value)
-	if cl.Kind == "ensures" || cl.Kind == "yields" || cl.Kind == "panics" {
+	if cl.Kind == "ensures" || cl.Kind == "yields" || cl.Kind == "yields2" || cl.Kind == "panics" {
 		for o, v := range fv.entryParams {
 			if _, isMap := o.Type().Underlying().(*types.Map); isMap {
 				continue
@@ -561,7 +561,7 @@ func VerifyFunc(w *World, prog *Program, fi *FuncInfo) *FuncResult {
 		}
 		sort.Slice(ls, func(i, j int) bool { return ls[i].ord < ls[j].ord })
 		for _, l := range ls {
-			if fi.Contr != nil && (fi.Contr.Has("ensures", l.ord) || fi.Contr.Has("yields", l.ord) || fi.Contr.Has("nopanic", l.ord) || fi.Contr.Has("noglobals", l.ord)) {
+			if fi.Contr != nil && (fi.Contr.Has("ensures", l.ord) || fi.Contr.Has("yields", l.ord) || fi.Contr.Has("yields2", l.ord) || fi.Contr.Has("nopanic", l.ord) || fi.Contr.Has("noglobals", l.ord)) {
 				fv.verifyUnit(l.lit)
 			}
 		}
@@ -852,11 +852,15 @@ func (fv *FuncVerifier) verifyUnit(lit *ast.FuncLit) {
 			}
 			// iterator literal: `yields E` at function level (for the returned literal) => stopped || out == E
 			if lit != nil && fv.yieldVar != nil {
-				for _, cl := range fi.Contr.Get("yields", 0, fv.curLit) {
+				ycls := append(append([]*Clause(nil), fi.Contr.Get("yields", 0, fv.curLit)...), fi.Contr.Get("yields2", 0, fv.curLit)...)
+				for _, cl := range ycls {
 					e := fv.evalClause(s2, cl, pos, names, nil)
 					out := s2.ghost["out"]
 					if t, ok := s2.ghost["outText"]; ok && e.Sort == t.Sort {
 						out = t
+					}
+					if cl.Kind == "yields2" {
+						out = s2.ghost["out2"]
 					}
 					var goal Term
 					if fv.w.IsSeq(out.Sort) && out.Sort == e.Sort {
@@ -867,7 +871,7 @@ func (fv *FuncVerifier) verifyUnit(lit *ast.FuncLit) {
 					}
 					fv.obls = append(fv.obls, &Obligation{Func: fi.Key, Class: "F", Kind: "yields", Site: site, Pos: fv.pos(site),
 						Assume: append([]Term(nil), s2.pc...), Goal: goal, Desc: "iterator ran to completion yields exactly: " + cl.Text, consts: fv.consts,
-						Name: fmt.Sprintf("%s#F.yields[%s%d]", fi.Key, litPrefix(fv.curLit), cl.Ord)})
+						Name: fmt.Sprintf("%s#F.%s[%s%d]", fi.Key, cl.Kind, litPrefix(fv.curLit), cl.Ord)})
 				}
 			}
 			retIdx++
@@ -1026,7 +1030,19 @@ func (fv *FuncVerifier) frameObligations(s2 *State, site token.Pos) {
 		}
 		// assigns * with `preserves`: every havoc on this path must itself have preserved the promised fields
 		for _, h := range s2.havocs {
-			ok := h.prefix != "" && h.prefix == pfx
+			// the event must preserve every prefix we promise, and may except only what we except
+			ok := h.prefix != ""
+			for _, mine := range strings.Fields(pfx) {
+				has := false
+				for _, theirs := range strings.Fields(h.prefix) {
+					if strings.HasPrefix(mine, theirs) {
+						has = true
+					}
+				}
+				if !has {
+					ok = false
+				}
+			}
 			for _, e := range h.except {
 				found := false
 				for _, e2 := range exc {
